@@ -218,6 +218,52 @@ def _work_dis(job):
         handle(bytes(rng.getrandbits(8) for _ in range(n)), True)
     return out
 
+# ------------------------------------------------------------------------------------------------ BND: decoding is a function of the bytes
+# the same ModRM/SIB bytes under other opcodes, operand sizes and prefixes: decoding them must not change what the probes decode to
+PROBES = ['8b00', '8d1a', '8a00', '0fb600', '8b0418', '8d0418', '8b04c0', 'ff30', 'd320', '8b03', '0f6f00', '660f6f00', 'd900', 'dd00', '8b1a', '8d00', '0fbe00',
+          '8b0424', 'f700', 'f600', 'c60001', 'c70001000000', '8b4004', '8b8000010000', '8bc3', '0f6fc1', '660f6fc1', 'd9c1', 'ec', 'd3e0', '678b00', '8b0500100000']
+HIST_OPS = ['8b', '8a', '8d', '89', '88', '0fb6', '0fbe', '0f6f', '660f6f', 'f30f6f', 'd9', 'dd', 'ff', 'f7', 'f6', 'd3', 'd2', '0fa3', '0f10', 'f20f10', '0fc7', '0f01', '62', 'c4', '8e', '8c']
+HIST_PRE = ['', '64', '65', '26', '2e', '36', '3e', '66', '67', '6667', 'f3', 'f2']
+HIST_TAIL = ['00', '1a', '03', '0418', '04c0', '0424', 'c3', 'c1', '4004', '8000010000', '0500100000', '20', '30']
+
+def _snap(hexes):
+    from miasmx.arch.ia32_arch import x86mnemo
+    out = []
+    for h in hexes:
+        try:
+            i = x86mnemo.dis(binascii.unhexlify(h) + b'\x90' * 8)
+            if i is None: out.append(None); continue
+            out.append((i.l, str(i), i.__str__('att_syntax binutils'), repr(sorted((str(k), str(v)) for a in i.arg for k, v in a.items()))))
+        except Exception as ex:
+            out.append(('raised', type(ex).__name__))
+    return out
+
+def _work_hist(job):
+    """probes decoded first thing in a fresh process, then after a fixed history of other decodes: identical (length, both renderings, operands)"""
+    common.use_repo()
+    from bounded import x86enum
+    x86enum.quiet()
+    from miasmx.arch.ia32_arch import x86mnemo, u16
+    before = _snap(PROBES)
+    n = 0
+    for pre in HIST_PRE:
+        for op in HIST_OPS:
+            for t in HIST_TAIL:
+                bs = binascii.unhexlify(pre + op + t) + b'\x90' * 8
+                n += 1
+                for kw in ({}, {'admode': u16, 'opmode': u16}):
+                    try:
+                        i = x86mnemo.dis(bs, kw) if kw else x86mnemo.dis(bs)
+                        if i is not None: str(i); i.__str__('att_syntax binutils')
+                    except Exception:
+                        pass
+    after = _snap(PROBES)
+    fails = []
+    for h, b, a in zip(PROBES, before, after):
+        if b != a:
+            fails.append((h, 'first decode in the process: %s; after %d other decodes: %s' % (b and b[:3], n, a and a[:3])))
+    return {'n': len(PROBES), 'fails': fails}
+
 # ------------------------------------------------------------------------------------------------ BND: assembler
 TOKENS = ['eax', 'AX', 'al', 'ah', 'es', 'cr0', 'dr7', 'mm0', 'xmm1', 'st', 'st(1)', 'byte', 'WORD', 'dword', 'qword', 'ptr', 'PTR', 'offset', 'flat', '[', ']', '+', '-', '*', ',', ':',
           '(', ')', '0', '1', '-1', '0x80', '4294967296', '0x', '1e5', 'foo', '.L1', 'fs', '%eax', '$1', '%', '$', '@', 'short', 'eiz']
@@ -244,6 +290,12 @@ def asm_lines(tier, seed):
     for i in range(20000 if tier == 'quick' else 400000):
         k = rng.randrange(1, 9)
         lines.append(' '.join([rng.choice(plain + TOKENS)] + [rng.choice(TOKENS) for _ in range(k - 1)]))
+    # every size keyword of the Intel grammar, both letter cases, in front of a memory operand, an immediate and nothing
+    for kw in ('BYTE', 'WORD', 'DWORD', 'QWORD', 'SINGLE', 'DOUBLE', 'TBYTE', 'XWORD', 'XMMWORD'):
+        for k in (kw, kw.lower()):
+            for ptr in ('PTR', 'ptr'):
+                for tmpl in ('fld %s %s [eax]', 'push %s %s 4', 'mov eax, %s %s [ebx+ecx*4]', 'movq mm0, %s %s [eax]', 'movdqa xmm0, %s %s [eax]', 'fstp %s %s [esp+8]', 'inc %s %s fs:[eax]', 'mov %s %s', 'fld %s %s'):
+                    lines.append(tmpl % (k, ptr))
     lines += ['', ' ', ',', 'mov', 'mov ,', 'mov eax,,ebx', 'lock', 'rep', 'lock rep', 'rep movsb', 'mov eax, [', 'mov eax, ]', 'mov eax, [eax', 'mov eax, 1 1', '\x00', 'mov\teax,\t1', 'é', 'mov eax, ' + '1+' * 200 + '1']
     return lines
 
@@ -315,6 +367,10 @@ def replay(kind, data):
     x86enum.quiet()
     if kind == 'readbs':
         r = twin_readbs(data); print(r); return 1 if r else 0
+    if kind == 'history':
+        r = _work_hist(0)
+        for x in r['fails']: print(x)
+        return 1 if any(x[0] == data['hex'] for x in r['fails']) else 0
     if kind == 'bytes':
         r = check_bytes(binascii.unhexlify(data['hex']), True)
         for x in r: print(x)
@@ -337,6 +393,13 @@ def main(argv):
     # interpreter (the parser's error path, for one, inspects call frames and behaves differently under another Python version)
     r1 = common.native_pool('checks.C10', '_work_dis', [(i, nparts, tier, seed) for i in range(nparts)])
     r2 = common.native_pool('checks.C10', '_work_asm', [lines[i:i + B] for i in range(0, len(lines), B)])
+    r3 = common.native_pool('checks.C10', '_work_hist', [0], nproc=1)[0]
+    for (h, msg) in r3['fails']:
+        oid = 'C10:history[%s]' % h
+        script = REPLAY % dict(verif=common.VERIF, repo=common.REPO, kind='history', data={'hex': h})
+        rp = run.write_replay(oid, {'obligation': oid, 'detail': msg}, script)
+        run.ob(oid, FAILED, 'BND', 'cpython-enum', detail='dis(%s) depends on what was decoded before: %s' % (h, msg), witness=rp, confirmed=True, func='history')
+    run.bulk('probe byte strings that decode identically before and after a fixed history of other decodes', r3['n'] - len(r3['fails']), 'BND', 'cpython-enum', 0.0, BOUNDED_OK)
     for results, kind in ((r1, 'bytes'), (r2, 'line')):
         groups = {}
         for r in results:
